@@ -3,6 +3,8 @@
 import sys, os, json
 V = os.path.dirname(os.path.dirname(os.path.abspath(__file__)))
 sys.path.insert(0, V)
+from vlib import determinism
+determinism.ensure()
 from multiprocessing import Pool
 from vlib.model import read_sources
 from selftest import runner
